@@ -202,6 +202,12 @@ impl WireMon {
         Some(f.delivered_cost as i64 - f.credits_emitted as i64)
     }
 
+    /// Credits the peer of `x` has put on the wire for the flow that `x` sends on this pair.
+    pub fn credits_emitted_for(&self, x: usize, local_port: u32) -> Option<u64> {
+        let pair = *self.open[x].get(&local_port)?;
+        Some(self.pairs[pair].flow[x].credits_emitted)
+    }
+
     pub fn open_ports(&self, x: usize) -> usize {
         self.open[x].len()
     }
